@@ -80,6 +80,13 @@ def run(ctx, replay):
     ctx.extra["tlc_behaviours_replayed"] = len(behs)
     racelog = ctx.path("race")
     ctx.drive(drv, ["c09", "run", beh_file, trace], timeout=1700, env={"GORACE": "halt_on_error=0 exitcode=0 log_path=" + racelog})
+    if not replay:
+        # timing-sensitive interactions in a build without the race detector
+        plain = ctx.build_harness()
+        trace2 = ctx.path("c09_timing.ndjson")
+        ctx.drive(plain, ["c09", "timing", trace2], timeout=900)
+        with open(trace, "a") as f:
+            f.write(open(trace2).read())
     events = vlib.read_ndjson(trace)
     res = ctx.tlc_trace("C09_Trace", "C09_Trace.cfg", trace, timeout=1200)
     # cases
